@@ -50,10 +50,10 @@ noncomputable def D4 (i j k m : Nat) : ℝ :=
   + (if m = i * nt * 3 + j * 3 + 2 then contrib E temps freqs weights nb cut cl i j k 2 else 0)
 
 theorem for4_tp (i j : Nat) (s : St) (m : Nat) :
-    (phpy_get_thermal_properties_for4 E temps freqs weights nt nq nb cut cl i j s).tp m
-      = s.tp m + ∑ k ∈ range nb, D4 E temps freqs weights nt nb cut cl i j k m := by
+    (phpy_get_thermal_properties_for4 E temps freqs weights nt nq nb cut cl i j s).buf0 m
+      = s.buf0 m + ∑ k ∈ range nb, D4 E temps freqs weights nt nb cut cl i j k m := by
   unfold phpy_get_thermal_properties_for4
-  refine forN_proj_add (fun s : St => s.tp) (fun _ => True) _ _ (fun _ _ _ => trivial) ?_ nb s trivial m
+  refine forN_proj_add (fun s : St => s.buf0) (fun _ => True) _ _ (fun _ _ _ => trivial) ?_ nb s trivial m
   intro k s _ m
   simp only [D4, contrib]
   generalize i * nt * 3 + j * 3 = base
@@ -76,10 +76,10 @@ theorem for4_props (i j : Nat) (s : St) :
   by_cases hg : 0 < temps j ∧ cut < freqs (i * nb + k) <;> simp [hg]
 
 theorem for3_tp (i : Nat) (s : St) (m : Nat) :
-    (phpy_get_thermal_properties_for3 E temps freqs weights nt nq nb cut cl i s).tp m
-      = s.tp m + ∑ j ∈ range nt, ∑ k ∈ range nb, D4 E temps freqs weights nt nb cut cl i j k m := by
+    (phpy_get_thermal_properties_for3 E temps freqs weights nt nq nb cut cl i s).buf0 m
+      = s.buf0 m + ∑ j ∈ range nt, ∑ k ∈ range nb, D4 E temps freqs weights nt nb cut cl i j k m := by
   unfold phpy_get_thermal_properties_for3
-  exact forN_proj_add (fun s : St => s.tp) (fun _ => True) _ _ (fun _ _ _ => trivial)
+  exact forN_proj_add (fun s : St => s.buf0) (fun _ => True) _ _ (fun _ _ _ => trivial)
     (fun j s _ m => for4_tp E temps freqs weights nt nq nb cut cl i j s m) nt s trivial m
 
 theorem for3_props (i : Nat) (s : St) :
@@ -88,10 +88,10 @@ theorem for3_props (i : Nat) (s : St) :
   exact forN_frame (fun s : St => s.thermal_props) _ (fun j s => for4_props E temps freqs weights nt nq nb cut cl i j s) nt s
 
 theorem for2_tp (s : St) (m : Nat) :
-    (phpy_get_thermal_properties_for2 E temps freqs weights nt nq nb cut cl s).tp m
-      = s.tp m + ∑ i ∈ range nq, ∑ j ∈ range nt, ∑ k ∈ range nb, D4 E temps freqs weights nt nb cut cl i j k m := by
+    (phpy_get_thermal_properties_for2 E temps freqs weights nt nq nb cut cl s).buf0 m
+      = s.buf0 m + ∑ i ∈ range nq, ∑ j ∈ range nt, ∑ k ∈ range nb, D4 E temps freqs weights nt nb cut cl i j k m := by
   unfold phpy_get_thermal_properties_for2
-  exact forN_proj_add (fun s : St => s.tp) (fun _ => True) _ _ (fun _ _ _ => trivial)
+  exact forN_proj_add (fun s : St => s.buf0) (fun _ => True) _ _ (fun _ _ _ => trivial)
     (fun i s _ m => for3_tp E temps freqs weights nt nq nb cut cl i s m) nq s trivial m
 
 theorem for2_props (s : St) :
@@ -100,10 +100,10 @@ theorem for2_props (s : St) :
   exact forN_frame (fun s : St => s.thermal_props) _ (fun i s => for3_props E temps freqs weights nt nq nb cut cl i s) nq s
 
 theorem for1_tp (s : St) (m : Nat) :
-    (phpy_get_thermal_properties_for1 E temps freqs weights nt nq nb cut cl s).tp m
-      = if m < nq * nt * 3 then 0 else s.tp m := by
+    (phpy_get_thermal_properties_for1 E temps freqs weights nt nq nb cut cl s).buf0 m
+      = if m < nt * nq * 3 then 0 else s.buf0 m := by
   unfold phpy_get_thermal_properties_for1
-  refine forN_proj_set (fun s : St => s.tp) _ 0 ?_ _ s m
+  refine forN_proj_set (fun s : St => s.buf0) _ 0 ?_ _ s m
   intro t s m
   simp [upd]
 
@@ -114,17 +114,17 @@ theorem for1_props (s : St) :
   intro t s; rfl
 
 theorem for6_tp (i : Nat) (s : St) :
-    (phpy_get_thermal_properties_for6 E temps freqs weights nt nq nb cut cl i s).tp = s.tp := by
+    (phpy_get_thermal_properties_for6 E temps freqs weights nt nq nb cut cl i s).buf0 = s.buf0 := by
   unfold phpy_get_thermal_properties_for6
-  refine forN_frame (fun s : St => s.tp) _ ?_ _ s
+  refine forN_frame (fun s : St => s.buf0) _ ?_ _ s
   intro t s; rfl
 
 theorem for6_props (i : Nat) (s : St) (m : Nat) :
     (phpy_get_thermal_properties_for6 E temps freqs weights nt nq nb cut cl i s).thermal_props m
-      = s.thermal_props m + ∑ j ∈ range (nt * 3), if m = j then s.tp (i * nt * 3 + j) else 0 := by
+      = s.thermal_props m + ∑ j ∈ range (nt * 3), if m = j then s.buf0 (i * nt * 3 + j) else 0 := by
   unfold phpy_get_thermal_properties_for6
-  refine forN_proj_add (fun s' : St => s'.thermal_props) (fun s' => s'.tp = s.tp) _
-    (fun j m => if m = j then s.tp (i * nt * 3 + j) else 0) ?_ ?_ _ s rfl m
+  refine forN_proj_add (fun s' : St => s'.thermal_props) (fun s' => s'.buf0 = s.buf0) _
+    (fun j m => if m = j then s.buf0 (i * nt * 3 + j) else 0) ?_ ?_ _ s rfl m
   · intro j s' hs'; exact hs'
   intro j s' hs' m
   by_cases h : m = j
@@ -133,10 +133,10 @@ theorem for6_props (i : Nat) (s : St) (m : Nat) :
 
 theorem for5_props (s : St) (m : Nat) :
     (phpy_get_thermal_properties_for5 E temps freqs weights nt nq nb cut cl s).thermal_props m
-      = s.thermal_props m + ∑ i ∈ range nq, ∑ j ∈ range (nt * 3), if m = j then s.tp (i * nt * 3 + j) else 0 := by
+      = s.thermal_props m + ∑ i ∈ range nq, ∑ j ∈ range (nt * 3), if m = j then s.buf0 (i * nt * 3 + j) else 0 := by
   unfold phpy_get_thermal_properties_for5
-  refine forN_proj_add (fun s' : St => s'.thermal_props) (fun s' => s'.tp = s.tp) _
-    (fun i m => ∑ j ∈ range (nt * 3), if m = j then s.tp (i * nt * 3 + j) else 0) ?_ ?_ _ s rfl m
+  refine forN_proj_add (fun s' : St => s'.thermal_props) (fun s' => s'.buf0 = s.buf0) _
+    (fun i m => ∑ j ∈ range (nt * 3), if m = j then s.buf0 (i * nt * 3 + j) else 0) ?_ ?_ _ s rfl m
   · intro i s' hs'
     simp only
     rw [for6_tp]; exact hs'
@@ -180,8 +180,8 @@ theorem sum_D4 {i0 j0 c0 : Nat} (hi0 : i0 < nq) (hj0 : j0 < nt) (hc0 : c0 < 3) :
   simp
 
 /-- the generated procedure, cell by cell -/
-theorem proc_cell (props0 tp0 : Nat → ℝ) (f0 : ℝ) {j0 c0 : Nat} (hj0 : j0 < nt) (hc0 : c0 < 3) :
-    phpy_get_thermal_properties E props0 temps freqs weights nt nq nb cut cl tp0 f0 (j0 * 3 + c0)
+theorem proc_cell (props0 tp0 : Nat → ℝ) {j0 c0 : Nat} (hj0 : j0 < nt) (hc0 : c0 < 3) :
+    phpy_get_thermal_properties E props0 temps freqs weights nt nq nb cut cl tp0 (j0 * 3 + c0)
       = props0 (j0 * 3 + c0)
         + ∑ i ∈ range nq, ∑ k ∈ range nb, contrib E temps freqs weights nb cut cl i j0 k c0 := by
   unfold phpy_get_thermal_properties
@@ -193,23 +193,23 @@ theorem proc_cell (props0 tp0 : Nat → ℝ) (f0 : ℝ) {j0 c0 : Nat} (hj0 : j0 
   rw [Finset.sum_eq_single_of_mem (j0 * 3 + c0) (Finset.mem_range.2 hm) (fun j _ hne => by simp [Ne.symm hne])]
   · simp only [if_true]
     rw [for2_tp, for1_tp]
-    have hlt : i * nt * 3 + (j0 * 3 + c0) < nq * nt * 3 := by
+    have hlt : i * nt * 3 + (j0 * 3 + c0) < nt * nq * 3 := by
       have : (i + 1) * (nt * 3) ≤ nq * (nt * 3) := Nat.mul_le_mul_right _ hi'
       have e : (i + 1) * (nt * 3) = i * nt * 3 + nt * 3 := by ring
-      have e' : nq * (nt * 3) = nq * nt * 3 := by ring
+      have e' : nq * (nt * 3) = nt * nq * 3 := by ring
       omega
     rw [if_pos hlt, zero_add]
     exact sum_D4 E temps freqs weights nt nq nb cut cl hi' hj0 hc0
 
 /-- cells beyond `3·nt` are not touched -/
-theorem proc_frame (props0 tp0 : Nat → ℝ) (f0 : ℝ) {m : Nat} (hm : nt * 3 ≤ m) :
-    phpy_get_thermal_properties E props0 temps freqs weights nt nq nb cut cl tp0 f0 m = props0 m := by
+theorem proc_frame (props0 tp0 : Nat → ℝ) {m : Nat} (hm : nt * 3 ≤ m) :
+    phpy_get_thermal_properties E props0 temps freqs weights nt nq nb cut cl tp0 m = props0 m := by
   unfold phpy_get_thermal_properties
   rw [for5_props, for2_props, for1_props]
   have : ∑ i ∈ range nq, ∑ j ∈ range (nt * 3),
       (if m = j then (phpy_get_thermal_properties_for2 E temps freqs weights nt nq nb cut cl
         (phpy_get_thermal_properties_for1 E temps freqs weights nt nq nb cut cl
-          { thermal_props := props0, tp := tp0, f := f0 })).tp (i * nt * 3 + j) else 0) = 0 := by
+          { thermal_props := props0, buf0 := tp0 })).buf0 (i * nt * 3 + j) else 0) = 0 := by
     refine Finset.sum_eq_zero fun i _ => Finset.sum_eq_zero fun j hj => ?_
     have := Finset.mem_range.1 hj
     have : m ≠ j := by omega
